@@ -79,8 +79,8 @@ func libCall(name string, a []interface{}) (interface{}, bool) {
 		}
 		n, ok1 := in(0)
 		y, ok2 := fl(1)
-		if !ok1 || !ok2 {
-			return nil, false
+		if !ok1 || !ok2 || n > 1<<20 || n < -(1<<20) {
+			return nil, false // kapacitor rejects orders beyond 2^20 (math.Jn/Yn run in time proportional to the order)
 		}
 		return f(int(n), y), true
 	}
